@@ -1557,17 +1557,12 @@ theorem obsColor_ok {u : UEnv} {o h} (g : Good u o h) {a : Nat} (ha : a < h.fmts
 /-- the references an operation mentions exist -/
 def opLive (h : Heap) (op : Op) : Prop := ∀ r, r ∈ opRefs op → r < h.fmts.length
 
-/-- every operation except re-running `__init__` on a run's attribute dict (known finding D24) -/
-def notInit : Op → Prop
-  | .attsMutate _ _ name _ => name ≠ "__init__"
-  | _ => True
-
 /-- FmtStr results are objects of the heap -/
 def resLive (h : Heap) : Res → Prop
   | .refs rs => ∀ r, r ∈ rs → r < h.fmts.length
   | _ => True
 
-theorem opCmd_ok {u : UEnv} {o h} (g : Good u o h) (op : Op) (hl : opLive h op) (hn : notInit op) :
+theorem opCmd_ok {u : UEnv} {o h} (g : Good u o h) (op : Op) (hl : opLive h op) :
     Ok u (opCmd u op) o h (Std u o h fun res _ h' => resLive h' res) := by
   have one : ∀ {c : Cmd Nat}, Ok u c o h (Std u o h LiveR) →
       Ok u (c >>= fun r => Pure.pure (Res.one r)) o h (Std u o h fun res _ h' => resLive h' res) := by
@@ -1670,10 +1665,7 @@ theorem opCmd_ok {u : UEnv} {o h} (g : Good u o h) (op : Op) (hl : opLive h op) 
     intro v o1 h1 g1 _ _ _
     exact Std.pure g1 trivial
   | setitem a => exact Std.pure g trivial
-  | attsMutate a k name after =>
-    simp only [notInit] at hn
-    simp only [opCmd, if_neg hn]
-    exact Std.pure g trivial
+  | attsMutate a k name => exact Std.pure g trivial
 
 /-! ### refinement: the heap operations compute the values of the value-level models
 
@@ -1973,4 +1965,707 @@ theorem getitem_val {u : UEnv} {o h} (g : Good u o h) {a : Nat} (ha : a < h.fmts
     intro r o4 h4 g4 p4 _ hr
     refine Std.pure g4 ⟨r, rfl, hr.1, ?_⟩
     rw [hr.2, getitemParts_val, e]
+/-! ### refinement at operation level: splice, append, width_aware_slice, +, *, join -/
+
+/-- reading the runs of `r` (contents in heap 2, values in heap 3) gives `r`'s value -/
+theorem vals_eq {u : UEnv} {o1 o2 : List Nat} {h1 h2 h3 : Heap} (g1 : Good u o1 h1) (g2 : Good u o2 h2)
+    (p2 : Pres h1 h2) (p3 : Pres h2 h3) {r : Nat} (hr : r < h1.fmts.length) {v : FmtStr} (hv : h1.value r = some v)
+    {cs : List Nat} (hcs : h2.chunkIds cs ∧ h2.value r = h2.valsOf cs) {vs : List (Nat × Chunk)}
+    (hvs : some (vs.map Prod.snd) = h3.valsOf cs) : vs.map Prod.snd = v := by
+  have h3v : h3.value r = some v := by rw [(p2.trans p3).value g1 hr]; exact hv
+  have : h3.value r = h3.valsOf cs := by rw [p3.value g2 (p2.fmt_lt hr), hcs.2, p3.valsOf hcs.1]
+  rw [this, ← hvs] at h3v
+  exact Option.some.inj h3v
+
+/-- the value of a `str`-or-FmtStr operand: an ESC-free `str` converts to one unformatted run -/
+def argVal (h : Heap) : Arg → Option FmtStr
+  | .ref r => h.value r
+  | .str t => some [⟨t, {}⟩]
+
+theorem argVal_pres {u : UEnv} {o : List Nat} {h h' : Heap} (g : Good u o h) (p : Pres h h') {x : Arg} (hx : argLive h x) :
+    argVal h' x = argVal h x := by
+  cases x with
+  | ref r => exact p.value g hx
+  | str t => rfl
+
+theorem argLen_val {u : UEnv} {o h} (g : Good u o h) {x : Arg} (hx : argLive h x) {w : FmtStr} (hw : argVal h x = some w) :
+    Ok u (argLen x) o h (Std u o h fun n _ _ => n = len w) := by
+  cases x with
+  | ref r =>
+    refine Std.mono (obsLen_ok g hx) ?_
+    intro n o' h' _ p hn
+    simp only [argVal] at hw
+    simp only [Heap.freshLen, p.value g hx, hw, Option.map_some, Option.some.injEq] at hn
+    exact hn.symm
+  | str t =>
+    simp only [argVal, Option.some.injEq] at hw
+    subst hw
+    exact Std.pure g (by simp [len])
+
+theorem argFmt_val {u : UEnv} {o h} (g : Good u o h) {x : Arg} (hx : argLive h x) {w : FmtStr} (hw : argVal h x = some w) :
+    Ok u (argFmt x) o h (Std u o h fun r _ h' => r < h'.fmts.length ∧ h'.value r = some w) := by
+  cases x with
+  | ref r => exact Std.pure g ⟨hx, hw⟩
+  | str t =>
+    simp only [argVal, Option.some.injEq] at hw
+    subst hw
+    exact Std.mono (fmtstrOfStr_val g t {}) (fun r _ _ _ _ hr => ⟨hr.1, by rw [hr.2]; rfl⟩)
+
+theorem spliceParts_mem (new : List Part) (start end_ : Nat) (vs : List (Nat × Chunk)) :
+    ∀ bfsStart inserted c v, Part.shared c v ∈ (spliceParts new start end_ bfsStart inserted vs).1 →
+      Part.shared c v ∈ new ∨ (c, v) ∈ vs := by
+  induction vs with
+  | nil => intro b i c v hm; simp [spliceParts] at hm
+  | cons p vs ih =>
+    intro b i c v hm
+    obtain ⟨id, ch⟩ := p
+    simp only [spliceParts] at hm
+    split at hm
+    · simp at hm; grind
+    · split at hm
+      · simp at hm; grind
+      · split at hm
+        · simp at hm; grind
+        · split at hm
+          · simp at hm; grind
+          · have := ih _ _ _ _ hm; grind
+
+/-- `a.splice(new, start, end)` on the heap returns an object whose value is the value-level
+    `splice` (Model/FmtStr.lean, the model of C09) of the operands' values. -/
+theorem splice_val {u : UEnv} {o h} (g : Good u o h) {a : Nat} (ha : a < h.fmts.length) {new : Arg} (hn : argLive h new)
+    {v w : FmtStr} (hv : h.value a = some v) (hw : argVal h new = some w) (start : Nat) (end_ : Option Nat) :
+    Ok u (Heap.splice a new start end_) o h (Std u o h fun r _ h' => r < h'.fmts.length ∧
+      h'.value r = some (Curtsies.splice v w start end_)) := by
+  unfold Heap.splice
+  refine Std.bind (argLen_val g hn hw) ?_
+  intro n o1 h1 g1 p1 _ hn1
+  subst hn1
+  have ha1 := p1.fmt_lt ha
+  have hv1 : h1.value a = some v := by rw [p1.value g ha]; exact hv
+  unfold Curtsies.splice
+  split
+  · exact Std.pure g1 ⟨ha1, hv1⟩
+  · have hw1 : argVal h1 new = some w := by rw [argVal_pres g p1 hn]; exact hw
+    refine Std.bind (argFmt_val g1 (argLive_pres p1 hn) hw1) ?_
+    intro nf o2 h2 g2 p2 _ hnf
+    refine Std.bind (contents_val g2 hnf.1) ?_
+    intro ncs o3 h3 g3 p3 _ hncs
+    refine Std.bind (chunkVals_val g3 hncs.1) ?_
+    intro nvs o4 h4 g4 p4 _ hnvs
+    have en : nvs.map Prod.snd = w := vals_eq g2 g3 p3 p4 hnf.1 hnf.2 hncs hnvs.1
+    have ha4 := ((p2.trans p3).trans p4).fmt_lt ha1
+    have hv4 : h4.value a = some v := by rw [((p2.trans p3).trans p4).value g1 ha1]; exact hv1
+    refine Std.bind (contents_val g4 ha4) ?_
+    intro cs o5 h5 g5 p5 _ hcs
+    refine Std.bind (chunkVals_val g5 hcs.1) ?_
+    intro vs o6 h6 g6 p6 _ hvs
+    have ev : vs.map Prod.snd = v := vals_eq g4 g5 p5 p6 ha4 hv4 hcs hvs.1
+    have hnewTrue : ∀ c x, Part.shared c x ∈ (nvs.map fun p => Part.shared p.1 p.2) → h6.chunkVal c = some x := by
+      intro c x hm
+      simp only [List.mem_map] at hm
+      obtain ⟨p, hp, e⟩ := hm
+      cases e
+      have := hnvs.2 p hp
+      have hlt : p.1 < h4.chunks.length := by
+        simp only [Heap.chunkVal] at this
+        cases hx : h4.chunks[p.1]? with
+        | none => simp [hx] at this
+        | some y => exact (List.getElem?_eq_some_iff.mp hx).1
+      rw [(p5.trans p6).chunkVal hlt]; exact this
+    have hval := spliceParts_val (nvs.map fun p => Part.shared p.1 p.2) start (end_.getD start) vs 0 false
+    have hmem := spliceParts_mem (nvs.map fun p => Part.shared p.1 p.2) start (end_.getD start) vs 0 false
+    have enew : (nvs.map fun p => Part.shared p.1 p.2).map Part.val = w := by
+      rw [← en]; simp [List.map_map, Function.comp_def, Part.val]
+    rw [enew, ev] at hval
+    cases hsp : spliceParts (nvs.map fun p => Part.shared p.1 p.2) start (end_.getD start) 0 false vs with
+    | mk comps ins =>
+      rw [hsp] at hval hmem
+      simp only at hval hmem
+      have hcompsTrue : ∀ c x, Part.shared c x ∈ comps → h6.chunkVal c = some x := by
+        intro c x hm
+        rcases hmem c x hm with m | m
+        · exact hnewTrue c x m
+        · exact hvs.2 (c, x) m
+      dsimp only
+      rw [hsp, ← hval]
+      dsimp only
+      refine Std.mono (build_val g6 (ps := (if ins = true then comps else comps ++ nvs.map fun p => Part.shared p.1 p.2).filter
+        fun p => !p.val.s.isEmpty) ?_) ?_
+      · intro c x hm
+        have hm' := (List.mem_filter.mp hm).1
+        split at hm'
+        · exact hcompsTrue c x hm'
+        · rcases List.mem_append.mp hm' with m | m
+          · exact hcompsTrue c x m
+          · exact hnewTrue c x m
+      · intro r o7 h7 _ _ hr
+        refine ⟨hr.1, ?_⟩
+        rw [hr.2]
+        congr 1
+        rw [← enew]
+        cases ins <;> simp [List.filter_map, Function.comp_def]
+
+
+
+/-- `a.append(new)` -/
+theorem append_val {u : UEnv} {o h} (g : Good u o h) {a : Nat} (ha : a < h.fmts.length) {new : Arg} (hn : argLive h new)
+    {v w : FmtStr} (hv : h.value a = some v) (hw : argVal h new = some w) :
+    Ok u (Heap.append a new) o h (Std u o h fun r _ h' => r < h'.fmts.length ∧
+      h'.value r = some (Curtsies.append v w)) := by
+  unfold Heap.append
+  refine Std.bind (obsS_ok g ha) ?_
+  intro t o1 h1 g1 p1 _ ht
+  have hv1 : h1.value a = some v := by rw [p1.value g ha]; exact hv
+  have et : t = text v := by
+    simp only [Heap.freshS, hv1, Option.map_some, Option.some.injEq] at ht
+    exact ht.symm
+  subst et
+  have := splice_val g1 (p1.fmt_lt ha) (argLive_pres p1 hn) hv1 (by rw [argVal_pres g p1 hn]; exact hw) (text v).length none
+  rw [text_length] at this ⊢
+  exact this
+
+theorem wasParts_mem (u : UEnv) (start stop : Int) (vs : List (Nat × Chunk)) :
+    ∀ counter ps c v, wasParts u start stop counter vs = .ok ps → Part.shared c v ∈ ps → (c, v) ∈ vs := by
+  induction vs with
+  | nil => intro counter ps c v he hm; simp [wasParts] at he; subst he; simp at hm
+  | cons p vs ih =>
+    intro counter ps c v he hm
+    obtain ⟨id, ch⟩ := p
+    simp only [wasParts] at he
+    split at he
+    · cases he
+    · rename_i cw _
+      split at he
+      · cases he
+      · rename_i part hpart
+        have hp : ∀ c v, Part.shared c v ∈ part → (c, v) = (id, ch) := by
+          intro c v hm
+          simp only [wasPart] at hpart
+          split at hpart
+          · split at hpart
+            · cases hpart; simp at hm; rw [hm.1, hm.2]
+            · split at hpart
+              · cases hpart
+              · cases hpart; simp at hm
+          · cases hpart; simp at hm
+        split at he
+        · cases he; rw [hp c v hm]; exact List.mem_cons_self
+        · split at he
+          · cases he
+          · rename_i r hr
+            cases he
+            rcases List.mem_append.mp hm with m | m
+            · rw [hp c v m]; exact List.mem_cons_self
+            · exact List.mem_cons_of_mem _ (ih _ _ _ _ hr m)
+
+/-- `a.width_aware_slice(idx)` on the heap computes what the value-level `widthAwareSlice`
+    (Model/Width.lean, the model of C10) computes on `a`'s value. -/
+theorem widthAwareSlice_val {u : UEnv} {o h} (g : Good u o h) {a : Nat} (ha : a < h.fmts.length) {v : FmtStr}
+    (hv : h.value a = some v) (idx : Index) :
+    Ok u (Heap.widthAwareSlice u a idx) o h (Std u o h fun res _ h' =>
+      match Curtsies.widthAwareSlice u v idx with
+      | .error e => res = .error e
+      | .ok w => ∃ r, res = .ok r ∧ r < h'.fmts.length ∧ h'.value r = some w) := by
+  unfold Heap.widthAwareSlice
+  refine Std.bind (obsS_ok g ha) ?_
+  intro t o1 h1 g1 p1 _ ht
+  have ha1 := p1.fmt_lt ha
+  have hv1 : h1.value a = some v := by rw [p1.value g ha]; exact hv
+  have et : t = text v := by
+    simp only [Heap.freshS, hv1, Option.map_some, Option.some.injEq] at ht
+    exact ht.symm
+  subst et
+  unfold Curtsies.widthAwareSlice
+  split
+  · exact Std.pure g1 rfl
+  · refine Std.bind (obsWidth_ok g1 ha1) ?_
+    intro res o2 h2 g2 p2 _ hres
+    have ha2 := p2.fmt_lt ha1
+    have hv2 : h2.value a = some v := by rw [p2.value g1 ha1]; exact hv1
+    simp only [bind, Except.bind]
+    cases res with
+    | error e =>
+      simp only [hv2, Option.map_some, Option.some.injEq] at hres
+      rw [hres]
+      exact Std.pure g2 rfl
+    | ok wd =>
+      simp only [Heap.freshWidth, hv2] at hres
+      cases hfw : fmtWidth u v with
+      | error e => rw [hfw] at hres; exact hres.elim
+      | ok wd' =>
+        rw [hfw] at hres
+        simp only at hres
+        subst hres
+        simp only []
+        cases hns : normalizeSlice wd'.toNat idx with
+        | error e => exact Std.pure g2 rfl
+        | ok se =>
+          obtain ⟨start, stop⟩ := se
+          simp only []
+          refine Std.bind (contents_val g2 ha2) ?_
+          intro cs o3 h3 g3 p3 _ hcs
+          refine Std.bind (chunkVals_val g3 hcs.1) ?_
+          intro vs o4 h4 g4 p4 _ hvs
+          have ev : vs.map Prod.snd = v := vals_eq g2 g3 p3 p4 ha2 hv2 hcs hvs.1
+          have hval := wasParts_val u start stop vs 0
+          rw [ev] at hval
+          cases hwp : wasParts u start stop 0 vs with
+          | error e =>
+            rw [hwp] at hval; simp only [Except.map] at hval; rw [← hval]
+            exact Std.pure g4 rfl
+          | ok parts =>
+            rw [hwp] at hval; simp only [Except.map] at hval; rw [← hval]
+            simp only []
+            have hp : partsTrue h4 parts := fun c x hm => hvs.2 (c, x) (wasParts_mem u start stop vs 0 parts c x hwp hm)
+            refine Std.bind (buildOrEmpty_val g4 hp) ?_
+            intro r o5 h5 g5 p5 _ hr
+            exact Std.pure g5 ⟨r, rfl, hr.1, hr.2⟩
+
+
+
+theorem valsOf_append {h : Heap} {x y : List Nat} {a b : FmtStr} (hx : h.valsOf x = some a) (hy : h.valsOf y = some b) :
+    h.valsOf (x ++ y) = some (a ++ b) := by
+  induction x generalizing a with
+  | nil => simp [Heap.valsOf] at hx; subst hx; simpa using hy
+  | cons c cs ih =>
+    simp only [Heap.valsOf] at hx
+    cases h1 : h.chunkVal c with
+    | none => simp [h1] at hx
+    | some v =>
+      cases h2 : h.valsOf cs with
+      | none => simp [h1, h2] at hx
+      | some w =>
+        simp only [h1, h2, Option.some.injEq] at hx
+        subst hx
+        simp [Heap.valsOf, h1, ih h2]
+
+/-- a temporary list written and read back at once (`self.chunks + other.chunks` passed to `FmtStr(*…)`) -/
+theorem Std.tmpList {u : UEnv} {β : Type} {o h} (g : Good u o h) {xs : List Nat} (hx : h.chunkIds xs) {k : List Nat → Cmd β}
+    {R : β → List Nat → Heap → Prop}
+    (hk : ∀ o' h', Good u o' h' → Pres h h' → (∀ l, l ∈ o → l ∈ o') → Ok u (k xs) o' h' (Std u o' h' R)) :
+    Ok u (newList xs >>= fun t => getList t >>= k) o h (Std u o h R) := by
+  have e : interp u true (newList xs >>= fun t => getList t >>= k) o h =
+      interp u true (k xs) (h.lists.length :: o) (h.allocList xs) := by
+    simp [interp_bind, newList, getList, interp, ck, hx, Heap.allocList]
+  have p := pres_allocList h xs g.fmtList
+  obtain ⟨b, o'', h'', e2, g2, p2, sub2, r⟩ := hk _ _ (good_allocList g hx) p (fun l m => List.mem_cons_of_mem _ m)
+  exact ⟨b, o'', h'', e.trans e2, g2, p.trans p2, fun l m => sub2 l (List.mem_cons_of_mem _ m), r⟩
+
+/-- `a + b` -/
+theorem add_val {u : UEnv} {o h} (g : Good u o h) {a b : Nat} (ha : a < h.fmts.length) (hb : b < h.fmts.length)
+    {va vb : FmtStr} (hva : h.value a = some va) (hvb : h.value b = some vb) :
+    Ok u (Heap.add a b) o h (Std u o h fun r _ h' => r < h'.fmts.length ∧ h'.value r = some (Curtsies.add va vb)) := by
+  unfold Heap.add
+  refine Std.bind (contents_val g ha) ?_
+  intro x o1 h1 g1 p1 _ hx
+  refine Std.bind (contents_val g1 (p1.fmt_lt hb)) ?_
+  intro y o2 h2 g2 p2 _ hy
+  have ex : h2.valsOf x = some va := by rw [p2.valsOf hx.1, ← hx.2, p1.value g ha]; exact hva
+  have ey : h2.valsOf y = some vb := by rw [← hy.2, (p1.trans p2).value g hb]; exact hvb
+  have hxy : h2.chunkIds (x ++ y) := by
+    intro c hm
+    rcases List.mem_append.mp hm with m | m
+    · exact p2.chunk_lt (hx.1 c m)
+    · exact hy.1 c m
+  refine Std.tmpList g2 hxy ?_
+  intro o3 h3 g3 p3 _
+  refine Std.mono (mkFmt_val g3 (p3.chunkIds hxy)) ?_
+  intro r o4 h4 _ p4 hr
+  exact ⟨hr.1, by rw [hr.2, (p3.trans p4).valsOf hxy, valsOf_append ex ey]; rfl⟩
+
+/-- `a + "str"` -/
+theorem addStr_val {u : UEnv} {o h} (g : Good u o h) {a : Nat} (ha : a < h.fmts.length) {va : FmtStr}
+    (hva : h.value a = some va) (t : Text) :
+    Ok u (Heap.addStr a t) o h (Std u o h fun r _ h' => r < h'.fmts.length ∧ h'.value r = some (Curtsies.addStr va t)) := by
+  unfold Heap.addStr
+  refine Std.bind (contents_val g ha) ?_
+  intro x o1 h1 g1 p1 _ hx
+  have e : interp u true (newChunk t {}) o1 h1 = some (h1.chunks.length, o1, h1.allocChunk t {}) := by
+    simp [newChunk, interp]
+  have hnew : Ok u (newChunk t {}) o1 h1 (Std u o1 h1 fun c _ h' => c < h'.chunks.length ∧ h'.chunkVal c = some ⟨t, {}⟩) :=
+    Std.of_run g1 e (fun _ m => m) (fun _ _ => by simp [Heap.chunkVal, Heap.allocChunk, ChunkObj.val])
+  refine Std.bind hnew ?_
+  intro c o2 h2 g2 p2 _ hc
+  have ex : h2.valsOf x = some va := by rw [p2.valsOf hx.1, ← hx.2, p1.value g ha]; exact hva
+  have ey : h2.valsOf [c] = some [⟨t, {}⟩] := by simp [Heap.valsOf, hc.2]
+  have hxy : h2.chunkIds (x ++ [c]) := by
+    intro c' hm
+    rcases List.mem_append.mp hm with m | m
+    · exact p2.chunk_lt (hx.1 c' m)
+    · simp at m; subst m; exact hc.1
+  refine Std.tmpList g2 hxy ?_
+  intro o3 h3 g3 p3 _
+  refine Std.mono (mkFmt_val g3 (p3.chunkIds hxy)) ?_
+  intro r o4 h4 _ p4 hr
+  exact ⟨hr.1, by rw [hr.2, (p3.trans p4).valsOf hxy, valsOf_append ex ey]; rfl⟩
+
+/-- `"str" + a` -/
+theorem raddStr_val {u : UEnv} {o h} (g : Good u o h) {a : Nat} (ha : a < h.fmts.length) {va : FmtStr}
+    (hva : h.value a = some va) (t : Text) :
+    Ok u (Heap.raddStr a t) o h (Std u o h fun r _ h' => r < h'.fmts.length ∧ h'.value r = some (Curtsies.raddStr va t)) := by
+  unfold Heap.raddStr
+  have e : interp u true (newChunk t {}) o h = some (h.chunks.length, o, h.allocChunk t {}) := by
+    simp [newChunk, interp]
+  have hnew : Ok u (newChunk t {}) o h (Std u o h fun c _ h' => c < h'.chunks.length ∧ h'.chunkVal c = some ⟨t, {}⟩) :=
+    Std.of_run g e (fun _ m => m) (fun _ _ => by simp [Heap.chunkVal, Heap.allocChunk, ChunkObj.val])
+  refine Std.bind hnew ?_
+  intro c o1 h1 g1 p1 _ hc
+  refine Std.bind (contents_val g1 (p1.fmt_lt ha)) ?_
+  intro x o2 h2 g2 p2 _ hx
+  have ex : h2.valsOf x = some va := by rw [← hx.2, (p1.trans p2).value g ha]; exact hva
+  have ey : h2.valsOf [c] = some [⟨t, {}⟩] := by simp [Heap.valsOf, p2.chunkVal hc.1, hc.2]
+  have hxy : h2.chunkIds ([c] ++ x) := by
+    intro c' hm
+    rcases List.mem_append.mp hm with m | m
+    · simp at m; subst m; exact p2.chunk_lt hc.1
+    · exact hx.1 c' m
+  refine Std.tmpList g2 hxy ?_
+  intro o3 h3 g3 p3 _
+  refine Std.mono (mkFmt_val g3 (p3.chunkIds hxy)) ?_
+  intro r o4 h4 _ p4 hr
+  exact ⟨hr.1, by rw [hr.2, (p3.trans p4).valsOf hxy, valsOf_append ey ex]; rfl⟩
+
+theorem mulLoop_val {u : UEnv} (a : Nat) (va : FmtStr) (k : Nat) : ∀ {o h} (_ : Good u o h) (_ : a < h.fmts.length)
+    (_ : h.value a = some va) {acc : Nat} (_ : acc < h.fmts.length) {vacc : FmtStr} (_ : h.value acc = some vacc),
+    Ok u (mulLoop a k acc) o h (Std u o h fun r _ h' => r < h'.fmts.length ∧
+      h'.value r = some (vacc ++ (List.replicate k va).flatten)) := by
+  induction k with
+  | zero => intro o h g _ _ acc hacc vacc hv; exact Std.pure g ⟨hacc, by simpa using hv⟩
+  | succ k ih =>
+    intro o h g ha hva acc hacc vacc hv
+    unfold mulLoop
+    refine Std.bind (add_val g hacc ha hv hva) ?_
+    intro acc' o1 h1 g1 p1 _ h'
+    refine Std.mono (ih g1 (p1.fmt_lt ha) (by rw [p1.value g ha]; exact hva) h'.1 h'.2) ?_
+    intro r _ h2 _ _ hr
+    exact ⟨hr.1, by rw [hr.2]; simp [Curtsies.add, List.replicate_succ]⟩
+
+/-- `a * n` -/
+theorem mul_val {u : UEnv} {o h} (g : Good u o h) {a : Nat} (ha : a < h.fmts.length) {va : FmtStr}
+    (hva : h.value a = some va) (n : Int) :
+    Ok u (Heap.mul a n) o h (Std u o h fun r _ h' => r < h'.fmts.length ∧ h'.value r = some (Curtsies.mul va n)) := by
+  unfold Heap.mul
+  refine Std.bind (mkFmt_val g (cs := []) (fun c hm => by cases hm)) ?_
+  intro z o1 h1 g1 p1 _ hz
+  refine Std.mono (mulLoop_val a va n.toNat g1 (p1.fmt_lt ha) (by rw [p1.value g ha]; exact hva) hz.1
+    (vacc := []) (by rw [hz.2]; rfl)) ?_
+  intro r _ h2 _ _ hr
+  exact ⟨hr.1, by rw [hr.2]; simp [Curtsies.mul]⟩
+
+
+
+/-! ### commands that mutate no list leave every existing list as it is -/
+
+/-- no `list.extend/append/clear` node anywhere in the command tree -/
+def NoMut {α : Type} : Cmd α → Prop
+  | .ret _ => True
+  | .newChunk _ _ k => ∀ x, NoMut (k x)
+  | .newList _ k => ∀ x, NoMut (k x)
+  | .newFmt _ k => ∀ x, NoMut (k x)
+  | .getChunk _ k => ∀ x, NoMut (k x)
+  | .getList _ k => ∀ x, NoMut (k x)
+  | .getFmt _ k => ∀ x, NoMut (k x)
+  | .listExtend _ _ _ => False
+  | .listAppend _ _ _ => False
+  | .listClear _ _ => False
+  | .setColorStr _ _ k => NoMut k
+  | .setUni _ _ k => NoMut k
+  | .setLen _ _ k => NoMut k
+  | .setS _ _ k => NoMut k
+  | .setWidth _ _ k => NoMut k
+  | .setAtts _ _ k => NoMut k
+
+theorem NoMut.bind {α β : Type} {c : Cmd α} {k : α → Cmd β} (hc : NoMut c) (hk : ∀ a, NoMut (k a)) : NoMut (c >>= k) := by
+  show NoMut (c.bind k)
+  induction c with
+  | ret a => exact hk a
+  | newChunk s a k' ih => exact fun x => ih x (hc x)
+  | newList xs k' ih => exact fun x => ih x (hc x)
+  | newFmt l k' ih => exact fun x => ih x (hc x)
+  | getChunk c k' ih => exact fun x => ih x (hc x)
+  | getList l k' ih => exact fun x => ih x (hc x)
+  | getFmt r k' ih => exact fun x => ih x (hc x)
+  | listExtend l xs k' ih => exact hc.elim
+  | listAppend l x k' ih => exact hc.elim
+  | listClear l k' ih => exact hc.elim
+  | setColorStr c v k' ih => exact ih hc
+  | setUni r v k' ih => exact ih hc
+  | setLen r v k' ih => exact ih hc
+  | setS r v k' ih => exact ih hc
+  | setWidth r v k' ih => exact ih hc
+  | setAtts c a k' ih => exact ih hc
+
+theorem interp_noMut {u : UEnv} {chk : Bool} {α : Type} (c : Cmd α) (hc : NoMut c) : ∀ (o : List Nat) (h : Heap) (x : α × List Nat × Heap),
+    interp u chk c o h = some x → ∀ l, l < h.lists.length → x.2.2.lists[l]? = h.lists[l]? := by
+  induction c with
+  | ret a => intro o h x hi l _; simp [interp] at hi; subst hi; rfl
+  | newChunk s a k ih => intro o h x hi l hl; simp only [interp] at hi; exact ih _ (hc _) _ _ _ hi l hl
+  | newList xs k ih =>
+    intro o h x hi l hl
+    simp only [interp] at hi
+    split at hi
+    · have := ih _ (hc _) _ _ _ hi l (by simp [Heap.allocList]; omega)
+      rw [this]; simp only [Heap.allocList]; exact List.getElem?_append_left hl
+    · cases hi
+  | newFmt l' k ih =>
+    intro o h x hi l hl
+    simp only [interp] at hi
+    split at hi
+    · split at hi
+      · exact ih _ (hc _) _ _ _ hi l hl
+      · cases hi
+    · cases hi
+  | getChunk c k ih =>
+    intro o h x hi l hl
+    simp only [interp] at hi
+    split at hi
+    · exact ih _ (hc _) _ _ _ hi l hl
+    · cases hi
+  | getList l' k ih =>
+    intro o h x hi l hl
+    simp only [interp] at hi
+    split at hi
+    · exact ih _ (hc _) _ _ _ hi l hl
+    · cases hi
+  | getFmt r k ih =>
+    intro o h x hi l hl
+    simp only [interp] at hi
+    split at hi
+    · exact ih _ (hc _) _ _ _ hi l hl
+    · cases hi
+  | listExtend l' xs k ih => exact hc.elim
+  | listAppend l' y k ih => exact hc.elim
+  | listClear l' k ih => exact hc.elim
+  | setColorStr c v k ih =>
+    intro o h x hi l hl
+    simp only [interp] at hi
+    split at hi
+    · split at hi
+      · exact ih hc _ _ _ hi l hl
+      · cases hi
+    · cases hi
+  | setUni r v k ih =>
+    intro o h x hi l hl
+    simp only [interp] at hi
+    split at hi
+    · split at hi
+      · exact ih hc _ _ _ hi l hl
+      · cases hi
+    · cases hi
+  | setLen r v k ih =>
+    intro o h x hi l hl
+    simp only [interp] at hi
+    split at hi
+    · split at hi
+      · exact ih hc _ _ _ hi l hl
+      · cases hi
+    · cases hi
+  | setS r v k ih =>
+    intro o h x hi l hl
+    simp only [interp] at hi
+    split at hi
+    · split at hi
+      · exact ih hc _ _ _ hi l hl
+      · cases hi
+    · cases hi
+  | setWidth r v k ih =>
+    intro o h x hi l hl
+    simp only [interp] at hi
+    split at hi
+    · split at hi
+      · exact ih hc _ _ _ hi l hl
+      · cases hi
+    · cases hi
+  | setAtts c a k ih =>
+    intro o h x hi l hl
+    simp only [interp] at hi
+    split at hi
+    · split at hi
+      · exact ih hc _ _ _ hi l hl
+      · cases hi
+    · cases hi
+
+theorem noMut_contents (r : Nat) : NoMut (contents r) := by
+  simp [contents, bind, Cmd.bind, getFmt, getList, NoMut]
+
+theorem noMut_chunkVals (cs : List Nat) : NoMut (chunkVals cs) := by
+  induction cs with
+  | nil => trivial
+  | cons c cs ih =>
+    show NoMut (getChunk c >>= fun o => chunkVals cs >>= fun r => Pure.pure ((c, o.val) :: r))
+    exact NoMut.bind (by simp [getChunk, NoMut]) (fun _ => NoMut.bind ih (fun _ => trivial))
+
+theorem noMut_mkFmt (cs : List Nat) : NoMut (mkFmt cs) := by
+  simp [mkFmt, bind, Cmd.bind, newList, newFmt, NoMut]
+
+theorem noMut_allocParts (ps : List Part) : NoMut (allocParts ps) := by
+  induction ps with
+  | nil => trivial
+  | cons p ps ih =>
+    cases p with
+    | shared c v =>
+      show NoMut (allocParts ps >>= fun r => Pure.pure (c :: r))
+      exact NoMut.bind ih (fun _ => trivial)
+    | fresh v =>
+      show NoMut (newChunk v.s v.atts >>= fun c => allocParts ps >>= fun r => Pure.pure (c :: r))
+      exact NoMut.bind (by simp [newChunk, NoMut]) (fun _ => NoMut.bind ih (fun _ => trivial))
+
+theorem noMut_build (ps : List Part) : NoMut (build ps) :=
+  NoMut.bind (noMut_allocParts ps) (fun cs => noMut_mkFmt cs)
+
+theorem noMut_cwna (r : Nat) (a : Atts) : NoMut (cwna r a) :=
+  NoMut.bind (noMut_contents r) (fun cs => NoMut.bind (noMut_chunkVals cs) (fun _ => noMut_build _))
+
+theorem noMut_fmtstrOfStr (t : Text) (a : Atts) : NoMut (fmtstrOfStr t a) :=
+  NoMut.bind (noMut_build _) (fun r => noMut_cwna r a)
+
+theorem noMut_itemChunks (x : Arg) : NoMut (itemChunks x) := by
+  cases x with
+  | ref r => exact noMut_contents r
+  | str t => exact NoMut.bind (noMut_fmtstrOfStr t {}) (fun r => noMut_contents r)
+
+
+
+theorem Std.keeps {u : UEnv} {α : Type} {c : Cmd α} (hc : NoMut c) {o h} {R : α → List Nat → Heap → Prop}
+    (hk : Ok u c o h (Std u o h R)) :
+    Ok u c o h (Std u o h fun a o' h' => R a o' h' ∧ ∀ l, l < h.lists.length → h'.lists[l]? = h.lists[l]?) := by
+  obtain ⟨a, o', h', e, g, p, sub, r⟩ := hk
+  exact ⟨a, o', h', e, g, p, sub, r, interp_noMut c hc o h _ e⟩
+
+theorem itemChunks_val {u : UEnv} {o h} (g : Good u o h) {x : Arg} (hx : argLive h x) {w : FmtStr} (hw : argVal h x = some w) :
+    Ok u (itemChunks x) o h (Std u o h fun cs _ h' => h'.chunkIds cs ∧ h'.valsOf cs = some w) := by
+  cases x with
+  | ref r =>
+    refine Std.mono (contents_val g hx) ?_
+    intro cs _ h' _ p hcs
+    exact ⟨hcs.1, by rw [← hcs.2, p.value g hx]; exact hw⟩
+  | str t =>
+    simp only [argVal, Option.some.injEq] at hw
+    subst hw
+    unfold itemChunks
+    refine Std.bind (fmtstrOfStr_val g t {}) ?_
+    intro r o1 h1 g1 p1 _ hr
+    refine Std.mono (contents_val g1 hr.1) ?_
+    intro cs _ h' _ p hcs
+    exact ⟨hcs.1, by rw [← hcs.2, p.value g1 hr.1, hr.2]; rfl⟩
+
+theorem listExtend_val {u : UEnv} {o h} (g : Good u o h) {l : Nat} (hl : l ∈ o) {xs ys : List Nat} (hx : h.chunkIds xs)
+    (hy : h.lists[l]? = some ys) :
+    Ok u (listExtend l xs) o h (Std u o h fun _ _ h' => h'.lists[l]? = some (ys ++ xs) ∧ h'.chunks = h.chunks ∧
+      ∀ l', l' ≠ l → h'.lists[l']? = h.lists[l']?) := by
+  have hlt := (g.owned l hl).1
+  refine Std.of_run g (a := ()) (o' := o) (h' := h.setList l (ys ++ xs)) ?_ (fun _ m => m) ?_
+  · simp [listExtend, interp, ck, hl, hx, Heap.Heap.listExtend, hy]
+  · intro _ _
+    refine ⟨by simp [Heap.setList, hlt], rfl, ?_⟩
+    intro l' hne
+    simp only [Heap.setList]
+    exact List.getElem?_set_ne (fun e => hne e.symm)
+
+theorem argVals_pres {u : UEnv} {o : List Nat} {h h' : Heap} (g : Good u o h) (p : Pres h h') {items : List Arg}
+    (hl : ∀ x, x ∈ items → argLive h x) : items.map (argVal h') = items.map (argVal h) :=
+  List.map_congr_left fun x hx => argVal_pres g p (hl x hx)
+
+/-- the loop of `join`: what the local list `chunks` holds at the end -/
+theorem joinLoop_val {u : UEnv} (sepList chunks : Nat) (vsep : FmtStr) (items : List Arg) : ∀ {o h} (_ : Good u o h)
+    (_ : chunks ∈ o) (_ : sepList ≠ chunks) {sl : List Nat} (_ : h.lists[sepList]? = some sl) (_ : h.valsOf sl = some vsep)
+    {before : Nat} (_ : before ≠ chunks) {bl : List Nat} (_ : h.lists[before]? = some bl) {vb : FmtStr} (_ : h.valsOf bl = some vb)
+    {acc : List Nat} (_ : h.lists[chunks]? = some acc) {vacc : FmtStr} (_ : h.valsOf acc = some vacc)
+    {ws : List FmtStr} (_ : ∀ x, x ∈ items → argLive h x) (_ : items.map (argVal h) = ws.map some),
+    Ok u (Heap.joinLoop sepList chunks before items) o h (Std u o h fun _ _ h' =>
+      ∃ acc', h'.lists[chunks]? = some acc' ∧ h'.valsOf acc' = some (vacc ++ Curtsies.joinLoop vsep vb ws)) := by
+  induction items with
+  | nil =>
+    intro o h g _ _ sl _ _ before _ bl _ vb _ acc hacc vacc hvacc ws _ hws
+    cases ws with
+    | nil => exact Std.pure g ⟨acc, hacc, by simpa [Curtsies.joinLoop] using hvacc⟩
+    | cons w ws => simp at hws
+  | cons s rest ih =>
+    intro o h g hch hne sl hsl hvsl before hbne bl hbl vb hvb acc hacc vacc hvacc ws hlive hws
+    cases ws with
+    | nil => simp at hws
+    | cons w ws' =>
+    simp only [List.map_cons, List.cons.injEq] at hws
+    have hsLive := hlive s List.mem_cons_self
+    have hrestLive : ∀ x, x ∈ rest → argLive h x := fun x hx => hlive x (List.mem_cons_of_mem _ hx)
+    unfold Heap.joinLoop
+    have hblt : before < h.lists.length := (List.getElem?_eq_some_iff.mp hbl).1
+    refine Ok.congr (getList_bind hblt _) ?_
+    have ebl : h.lists[before] = bl := by
+      have := List.getElem?_eq_getElem hblt; rw [hbl] at this; exact (Option.some.inj this).symm
+    rw [ebl]
+    have hblIds : h.chunkIds bl := g.listElems _ _ hbl
+    have haccIds : h.chunkIds acc := g.listElems _ _ hacc
+    have hslIds : h.chunkIds sl := g.listElems _ _ hsl
+    refine Std.bind (listExtend_val g hch hblIds hacc) ?_
+    intro _ o1 h1 g1 p1 s1 h1f
+    have hsl1 : h1.lists[sepList]? = some sl := by rw [h1f.2.2 _ hne]; exact hsl
+    have hslt1 : sepList < h1.lists.length := (List.getElem?_eq_some_iff.mp hsl1).1
+    have hclt1 : chunks < h1.lists.length := (List.getElem?_eq_some_iff.mp h1f.1).1
+    refine Std.bind (Std.keeps (noMut_itemChunks s) (itemChunks_val g1 (argLive_pres p1 hsLive)
+      (by rw [argVal_pres g p1 hsLive]; exact hws.1))) ?_
+    intro x o2 h2 g2 p2 s2 hx
+    obtain ⟨⟨hxIds, hxVal⟩, hkeep⟩ := hx
+    have hacc2 : h2.lists[chunks]? = some (acc ++ bl) := by rw [hkeep _ hclt1]; exact h1f.1
+    have hsl2 : h2.lists[sepList]? = some sl := by rw [hkeep _ hslt1]; exact hsl1
+    refine Std.bind (listExtend_val g2 (s2 _ (s1 _ hch)) hxIds hacc2) ?_
+    intro _ o3 h3 g3 p3 s3 h3f
+    have pall := (p1.trans p2).trans p3
+    have hsl3 : h3.lists[sepList]? = some sl := by rw [h3f.2.2 _ hne]; exact hsl2
+    have hvsl3 : h3.valsOf sl = some vsep := by rw [pall.valsOf hslIds]; exact hvsl
+    have hacc3v : h3.valsOf ((acc ++ bl) ++ x) = some ((vacc ++ vb) ++ w) := by
+      refine valsOf_append (valsOf_append ?_ ?_) ?_
+      · rw [pall.valsOf haccIds]; exact hvacc
+      · rw [pall.valsOf hblIds]; exact hvb
+      · rw [p3.valsOf hxIds]; exact hxVal
+    refine Std.mono (ih g3 (s3 _ (s2 _ (s1 _ hch))) hne hsl3 hvsl3 hne hsl3 hvsl3 h3f.1 hacc3v
+      (fun y hy => argLive_pres pall (hrestLive y hy)) (by rw [argVals_pres g pall hrestLive]; exact hws.2)) ?_
+    intro _ _ h4 _ _ ⟨acc', h1', h2'⟩
+    exact ⟨acc', h1', by rw [h2']; simp [Curtsies.joinLoop, List.append_assoc]⟩
+
+theorem newList_val {u : UEnv} {o h} (g : Good u o h) {xs : List Nat} (hx : h.chunkIds xs) :
+    Ok u (newList xs) o h (Std u o h fun l o' h' => l ∈ o' ∧ l = h.lists.length ∧ h'.lists.length = h.lists.length + 1 ∧
+      h'.lists[l]? = some xs) :=
+  Std.of_run g (a := h.lists.length) (o' := h.lists.length :: o) (h' := h.allocList xs)
+    (by simp [newList, interp, ck, hx]) (fun _ m => List.mem_cons_of_mem _ m)
+    (fun _ _ => ⟨List.mem_cons_self, rfl, by simp [Heap.allocList], by simp [Heap.allocList]⟩)
+
+/-- `sep.join(items)` (str items are ESC-free) -/
+theorem join_val {u : UEnv} {o h} (g : Good u o h) {sep : Nat} (hs : sep < h.fmts.length) {vsep : FmtStr}
+    (hvs : h.value sep = some vsep) {items : List Arg} {ws : List FmtStr} (hlive : ∀ x, x ∈ items → argLive h x)
+    (hws : items.map (argVal h) = ws.map some) :
+    Ok u (Heap.join sep items) o h (Std u o h fun r _ h' => r < h'.fmts.length ∧
+      h'.value r = some (Curtsies.join vsep ws)) := by
+  unfold Heap.join
+  refine Std.bind (Std.keeps (by simp [newList, NoMut]) (newList_val g (xs := []) (fun c hm => by cases hm))) ?_
+  intro before o1 h1 g1 p1 s1 hb
+  obtain ⟨⟨hbo, hbe, hlen1, hbl⟩, _⟩ := hb
+  refine Std.bind (Std.keeps (by simp [newList, NoMut]) (newList_val g1 (xs := []) (fun c hm => by cases hm))) ?_
+  intro chunks o2 h2 g2 p2 s2 hc
+  obtain ⟨⟨hco, hce, hlen2, hcl⟩, hkeep2⟩ := hc
+  have pall := p1.trans p2
+  have hs2 : sep < h2.fmts.length := pall.fmt_lt hs
+  refine Ok.congr (getFmt_bind hs2 _) ?_
+  have hf2 := List.getElem?_eq_getElem hs2
+  have hsl : h2.fmts[sep].chunks < h2.lists.length := g2.fmtList sep _ hf2
+  have hslq := List.getElem?_eq_getElem hsl
+  have hvsl : h2.valsOf h2.lists[h2.fmts[sep].chunks] = some vsep := by
+    rw [← value_eq_valsOf hf2 hslq, pall.value g hs]; exact hvs
+  have hne : h2.fmts[sep].chunks ≠ chunks := (g2.owned chunks hco).2 sep _ hf2
+  have hbne : before ≠ chunks := by omega
+  have hbl2 : h2.lists[before]? = some [] := by
+    rw [hkeep2 before (by omega)]; exact hbl
+  refine Std.bind (joinLoop_val _ chunks vsep items g2 hco hne hslq hvsl hbne hbl2 (vb := []) rfl hcl (vacc := []) rfl
+    (fun x hx => argLive_pres pall (hlive x hx)) (by rw [argVals_pres g pall hlive]; exact hws)) ?_
+  intro _ o3 h3 g3 p3 s3 ⟨acc', hacc', hvacc'⟩
+  have hclt : chunks < h3.lists.length := (List.getElem?_eq_some_iff.mp hacc').1
+  refine Ok.congr (getList_bind hclt _) ?_
+  have e : h3.lists[chunks] = acc' := by
+    have := List.getElem?_eq_getElem hclt; rw [hacc'] at this; exact (Option.some.inj this).symm
+  rw [e]
+  have hids : h3.chunkIds acc' := g3.listElems _ _ hacc'
+  refine Std.mono (mkFmt_val g3 hids) ?_
+  intro r _ h4 _ p4 hr
+  exact ⟨hr.1, by rw [hr.2, p4.valsOf hids, hvacc']; rfl⟩
+
 end Curtsies.Heap
